@@ -1,0 +1,17 @@
+//go:build verif
+
+// Contracts for the gowp verifier (/verif): comment-only file, compiled only with -tags verif.
+package types
+
+//@ func types.SetFlag(f, i)
+//@   requires 0 <= i && i < 32
+//@   modifies *f, elems(f.Bytes)
+//@   trusted_frame the padding loop appends in place when capacity allows
+//@   loop 1 invariant l <= len(f.Bytes)
+//@ func types.UnsetFlag(f, i)
+//@   requires 0 <= i && i < 32
+//@   modifies *f, elems(f.Bytes)
+//@   trusted_frame the padding loop appends in place when capacity allows
+//@   loop 1 invariant l <= len(f.Bytes)
+//@ func (*types.Authenticator).GenerateSeqNumberAndSubKey(a, keyType, keySize) (err)
+//@   requires keySize >= 0 && keySize <= 1024
